@@ -233,13 +233,16 @@ def signature_walk(node, fi, npos):
     loop / comprehension over `sig.parameters` or an order-preserving view of it (see _signature_view; names, the
     parameter objects of `.values()` or the pairs of `.items()`), possibly enumerated, or inside an index loop
     `for i in range(lower, len(VIEW))` that reads `VIEW[i]`.
-    Returns None if it is not, else (names, index, beyond, objects): the spellings (temporaries resolved) of the
-    parameter's name and of its absolute position (empty if there is no counter), whether `node` is only reached for
-    the parameters after the first `npos` (text, e.g. 'len(args)') ones, and the spellings of the Parameter object."""
+    Returns None if it is not, else (names, index, beyond, objects, aligned): the spellings (temporaries resolved) of
+    the parameter's name and of its absolute position (empty if there is no counter), whether `node` is only reached for
+    the parameters after the first `npos` (text, e.g. 'len(args)') ones, the spellings of the Parameter object, and
+    {loop variable: sequence} for the variables of a `zip(VIEW, sequence[lower:])` that hold the item of `sequence` at
+    the parameter's absolute position."""
     it = enclosing_iteration(node, fi.node)
     if it is None:
         return None
     target, e = it[0], resolve(it[1], fi.node)
+    aligned = {}
     rng = shape.match("range(_L, len(_V))", e) or shape.match("range(len(_V))", e)
     if rng is not None and isinstance(target, ast.Name):
         view = _signature_view(ast.parse(rng["_V"], mode="eval").body, fi)
@@ -250,6 +253,11 @@ def signature_walk(node, fi, npos):
         item = f"{rng['_V']}[{counter}]"
         names, objs = {"names": ([item], [f"{mapping}[{item}]"]), "objects": ([f"{item}.name"], [item]), "items": ([f"{item}[0]", f"{item}[1].name"], [f"{item}[1]"])}[mode]
     else:
+        # zip(VIEW, S[lower:], ...): the walk over VIEW; the other loop variables are aligned items of their sequences
+        others = []
+        if isinstance(e, ast.Call) and call_name(e) == "zip" and len(e.args) >= 2 and not any(isinstance(a_, ast.Starred) for a_ in e.args) \
+                and isinstance(target, ast.Tuple) and len(target.elts) == len(e.args):
+            others, target, e = list(zip(target.elts[1:], e.args[1:])), target.elts[0], e.args[0]
         enumerated, start = False, "0"
         if isinstance(e, ast.Call) and call_name(e) == "enumerate" and e.args:
             enumerated = True
@@ -278,11 +286,16 @@ def signature_walk(node, fi, npos):
             names, objs = [f"{element.id}.name"], [element.id]
         else:
             names, objs = [element.id], [f"{mapping}[{element.id}]"]
+        for t_, seq in others:
+            sl = seq if isinstance(seq, ast.Subscript) and isinstance(seq.slice, ast.Slice) and seq.slice.upper is None and seq.slice.step is None else None
+            seq_lower = "0" if sl is None else norm(sl.slice.lower) if sl.slice.lower is not None else "0"
+            if isinstance(t_, ast.Name) and seq_lower == lower:
+                aligned[t_.id] = norm(sl.value if sl is not None else seq)
     beyond = lower == npos
     if not beyond and lower == "0" and index == [counter]:
         beyond = any((t and norm(resolve(a, fi.node)) in (f"{counter} >= {npos}", f"{npos} <= {counter}")) or
                      (not t and norm(resolve(a, fi.node)) in (f"{counter} < {npos}", f"{npos} > {counter}")) for a, t in facts(node, fi.node))
-    return names, index, beyond, objs
+    return names, index, beyond, objs, aligned
 
 
 def names_it(e, fn, texts):
@@ -541,14 +554,23 @@ def run(ck, ix, tier):
         fi = ix.func(mod, qual)
         ck.analysed(fi)
         cfg, defs = cfg_of(fi), defs_of(fi)
+        # the verdicts: what each live return yields - the returned expression itself, or, for a result variable assigned
+        # on several branches and returned once, every assigned value (judged where it is assigned)
+        verdicts = []
         for r in live(cfg, return_nodes(cfg)):
+            rn = cfg.nodes[r].ast
+            v = rn.value
+            multi = defs.defs.get(v.id, []) if isinstance(v, ast.Name) and v.id not in defs.params else []
+            if len(multi) > 1 and all(k_ == "assign" and v_ is not None for v_, k_, _ in multi):
+                verdicts += [(v_, st_) for v_, _, st_ in multi if not shape.dead(st_, fi.node)]
+            else:
+                verdicts.append((shape.unalias(v, fi.node) if v is not None else v, rn))
+        for v, site in verdicts:
             n_returns += 1
-            v = cfg.nodes[r].ast.value
-            key = f"{qual}|return|{norm(v)[:60]}"
-            where = fi.loc(cfg.nodes[r].ast)
+            where = fi.loc(site)
             if isinstance(v, ast.Constant) and isinstance(v.value, bool):
                 # only legal inside the context branch: try: ... .to(...) ; return True / except DimensionalityError: return False
-                ok = _const_return_is_to_verdict(fi, cfg.nodes[r].ast, v.value)
+                ok = _const_return_is_to_verdict(fi, site, v.value)
                 ck.check(ok, "G-PROV", f"{qual}|const-verdict-is-outcome-of-to", where,
                          "constant verdict is the outcome of a to() conversion",
                          f"`return {v.value}` is not the outcome of a to() conversion guarded by DimensionalityError")
@@ -774,13 +796,9 @@ def check_wrapper_order_rule(ck, ix):
              "declared dimensions zipped with the packed arguments", "declared dimensions are not zipped with the packed argument list")
 
 
-def _const_return_is_to_verdict(fi, ret: ast.Return, value: bool) -> bool:
-    """`return True` directly after a .to(...) call inside try, or `return False` in an
-    `except DimensionalityError` handler of such a try."""
-    p = getattr(ret, "_parent", None)
-    while p is not None and not isinstance(p, (ast.Try, ast.FunctionDef)):
-        prev = p
-        p = getattr(p, "_parent", None)
+def _const_return_is_to_verdict(fi, ret, value: bool) -> bool:
+    """`ret` is the site of a constant verdict (`return True` / `result = True`): True directly after a .to(...) call
+    inside try (or in its else clause), or False in an `except DimensionalityError` handler of such a try."""
     node = ret
     par = getattr(node, "_parent", None)
     if isinstance(par, ast.ExceptHandler):
@@ -794,10 +812,10 @@ def _const_return_is_to_verdict(fi, ret: ast.Return, value: bool) -> bool:
         return ok_type and has_to
     CONV = ("to", "ito", "m_as", "convert", "_convert")
 
-    def probing_try(tr):
+    def probing_try(tr, leave_only=False):
         return isinstance(tr, ast.Try) and any(isinstance(c, ast.Call) and call_name(c) in CONV for s in tr.body for c in ast.walk(s)) \
             and any(h.type is not None and "DimensionalityError" in norm(h.type) for h in tr.handlers) \
-            and all(any(isinstance(x, (ast.Return, ast.Raise)) for x in h.body) for h in tr.handlers)
+            and all(any(isinstance(x, (ast.Return, ast.Raise)) or (not leave_only and isinstance(x, ast.Assign) and isinstance(ret, ast.Assign) and norm(x.targets[0]) == norm(ret.targets[0])) for x in h.body) for h in tr.handlers)
     if value is not True:
         return False
     # `return True` as the last statement of the try body, in its else clause, or right after a try whose handlers all leave
@@ -811,6 +829,6 @@ def _const_return_is_to_verdict(fi, ret: ast.Return, value: bool) -> bool:
         lst = getattr(par, fld, None)
         if isinstance(lst, list) and any(x is ret for x in lst):
             i = [k for k, x in enumerate(lst) if x is ret][0]
-            if i > 0 and probing_try(lst[i - 1]):
+            if i > 0 and probing_try(lst[i - 1], leave_only=True):
                 return True
     return False
